@@ -256,6 +256,10 @@ def explore_error(scenario, origin, yielding, settle=150.0):
                 except BaseException as e:  # noqa
                     rec["outcome"] = f"raised {type(e).__name__}"
                     raise
+                finally:
+                    # where the reset LANDED (C08: always IDLE with no facade, spa or descriptors)
+                    rec["landed"] = {"state": str(self.spa_state).split(".")[-1], "facade": self._facade is not None,
+                                     "spa": self._spa is not None, "descriptors": self._spa_descriptors is not None}
         sim = fakenet.make_sim(SNAP)
         net = fakenet.Network(loop, sim, phases=phases, seed=1)
         loop.network = net
@@ -295,6 +299,7 @@ def explore_error(scenario, origin, yielding, settle=150.0):
             res["reset_states"] = [r["state"] for r in res["resets"]]
             res["reset_from"] = [r["from_task"] for r in res["resets"]]
             res["reset_outcomes"] = [r.get("outcome", "never-finished") for r in res["resets"]]
+            res["reset_landed"] = [r.get("landed") for r in res["resets"]]
         try:
             await m.__aexit__(None, None, None)
         except BaseException:  # noqa
